@@ -360,6 +360,49 @@ impl Check for C09 {
                 }
             });
         }
+        // an entry far longer than any path ("one dash, then nothing"): small offsets of either sign
+        // keep their exact meaning however long the period is; and subpaths begun by a LineTo
+        {
+            let arrs: Vec<Vec<f32>> = vec![vec![13.0, 1e9], vec![7.0, 4.0, 1e8], vec![1e9, 13.0], vec![25.0, 1e9, 5.0, 3.0], vec![9.0, 3e7]];
+            let offs = [0.0f32, 4.5, -4.5, 40.0, -40.0, 12.75, -13.0, 100.25, -7.0];
+            let tri = [(5.3f32, 6.1f32), (33.9, 7.4), (18.8, 34.6)];
+            let shapes: Vec<PathSpec> = vec![
+                PathSpec::new(vec![POp::M(tri[0].0, tri[0].1), POp::L(tri[1].0, tri[1].1), POp::L(tri[2].0, tri[2].1)]),
+                PathSpec::new(vec![POp::M(tri[0].0, tri[0].1), POp::L(tri[1].0, tri[1].1), POp::L(tri[2].0, tri[2].1), POp::Z]),
+                PathSpec::new(vec![POp::M(tri[2].0, tri[2].1), POp::L(tri[0].0, tri[0].1), POp::M(tri[1].0, tri[1].1), POp::L(20.1, 21.3), POp::L(tri[2].0, tri[2].1), POp::Z]),
+            ];
+            run.bound("one huge entry", format!("{} arrays with an entry of 3e7 .. 1e9 x {} small offsets of both signs x 3 shapes (open, closed, two subpaths) x 2 styles", arrs.len(), offs.len()));
+            run.par(arrs.len() * shapes.len(), |s, l| {
+                let arr = &arrs[s / shapes.len()];
+                let path = &shapes[s % shapes.len()];
+                for off in offs {
+                    for &(w, cap, join) in &[(2.0f32, 0u8, 1u8), (6.0, 1, 0)] {
+                        let st = StyleSpec { width: w, cap, join, miter: 4.0, dash: arr.clone(), offset: off };
+                        account(run, 3000 + s, l, path, &st, false);
+                    }
+                }
+            });
+            // a LineTo with no current point begins a subpath there (as it does for fill, flatten,
+            // contains_point and the plain stroker)
+            let led: Vec<PathSpec> = vec![
+                PathSpec::new(vec![POp::L(tri[0].0, tri[0].1), POp::L(tri[1].0, tri[1].1), POp::L(tri[2].0, tri[2].1)]),
+                PathSpec::new(vec![POp::L(tri[0].0, tri[0].1), POp::L(tri[1].0, tri[1].1), POp::L(tri[2].0, tri[2].1), POp::Z]),
+                PathSpec::new(vec![POp::L(tri[0].0, tri[0].1), POp::L(tri[1].0, tri[1].1), POp::L(tri[2].0, tri[2].1), POp::Z, POp::L(20.1, 21.3)]),
+                PathSpec::new(vec![POp::Z, POp::L(tri[0].0, tri[0].1), POp::L(tri[1].0, tri[1].1), POp::L(tri[2].0, tri[2].1), POp::Z]),
+            ];
+            let larr: Vec<Vec<f32>> = vec![vec![5.0, 3.0], vec![11.0], vec![40.0, 5.0], vec![200.0, 5.0], vec![3.0, 7.0, 7.0, 3.0]];
+            run.bound("subpaths begun by LineTo", format!("{} paths whose first drawing op is a LineTo (open, closed, closed + tail, leading Close) x {} arrays x 4 offsets x 2 styles", led.len(), larr.len()));
+            run.par(led.len() * larr.len(), |s, l| {
+                let path = &led[s / larr.len()];
+                let arr = &larr[s % larr.len()];
+                for off in [0.0f32, 4.5, -4.5, 10000.5] {
+                    for &(w, cap, join) in &[(2.0f32, 0u8, 1u8), (8.0, 2, 2)] {
+                        let st = StyleSpec { width: w, cap, join, miter: 4.0, dash: arr.clone(), offset: off };
+                        account(run, 3500 + s, l, path, &st, false);
+                    }
+                }
+            });
+        }
         // arrays whose total is not positive: nothing painted
         let bad: Vec<Vec<f32>> = vec![vec![0.], vec![0., 0.], vec![-1.], vec![5., -10.], vec![f32::NAN], vec![1., f32::NAN], vec![-3., 3.]];
         run.bound("non-positive totals", format!("{} arrays x 72 polylines x 3 offsets", bad.len()));
